@@ -48,7 +48,7 @@ class Exec:
         s.called = set(); s.path_samples = []; s.completed_models = []; s.keep_models = 0
         s.domain_checks = False; s.domain_issues = []; s.record_reads = False
         s.srt = z3.RealSort() if mode == 'real' else F64
-        s.deadline = None; s.fork_select = True; s.vcache = {}; s.slicing = (mode == 'real')
+        s.deadline = None; s.fork_select = True; s.libm_axioms = True; s.vcache = {}; s.slicing = (mode == 'real')
     # ------------------------------------------------------------ solver
     def vars_of(s, e):
         """uninterpreted constants and function symbols occurring in e (cached per AST id)"""
